@@ -64,7 +64,8 @@ def run_pool(obs, seed, jobs=None):
     # chunks: small enough to balance, each chunk in a fresh forked process
     weights = [getattr(o, "weight", 1) for o in obs]
     order = sorted(range(n), key=lambda i: -weights[i])
-    nchunks = min(n, max(jobs * 6, 1))
+    # (dynamic scheduling: one obligation per task unless there are thousands of tiny ones)
+    nchunks = n if n <= 1500 else min(n, max(jobs * 40, 1))
     chunks = [[] for _ in range(nchunks)]
     load = [0] * nchunks
     for i in order:
@@ -91,8 +92,59 @@ def run_pool(obs, seed, jobs=None):
 
 # ---------------------------------------------------------------------------------------
 
-def native_replay(ref, inputs, timeout=300):
+_REPLAYS = {}
+_REVERIFIED = {}
+_REV = []
+
+
+def _rkey(ref, inputs):
+    return json.dumps({"ref": ref, "inputs": inputs}, sort_keys=True, default=str)
+
+
+def _rev_work(k):
+    ob, region = _REV[k]
+    try:
+        return k, reverify_outside(ob, region, cached=False)
+    except BaseException as e:
+        return k, {"verdict": "undecided", "reason": "re-verification outside the region crashed: %s" % e, "paths": 0, "vcs": 0, "discharged": 0, "id": ob.id}
+
+
+def _prefetch(prop, obs, results, known, jobs):
+    """the native replays (one fresh interpreter each) and the re-verifications outside a known
+    finding's region that the verdict loop will ask for, computed in parallel beforehand"""
+    global _REV
+    from concurrent.futures import ThreadPoolExecutor
+    want = []
+    for ob, r in zip(obs, results):
+        if r is None or getattr(ob, "kind", "sym") == "rt":
+            continue
+        if r.get("verdict") == "refuted" and r.get("inputs") is not None:
+            want.append((r["ref"], r["inputs"]))
+        elif r.get("concrete_fail"):
+            want.append((r["ref"], r["concrete_fail"]["inputs"]))
+    if len(want) > 1:
+        with ThreadPoolExecutor(jobs or 16) as ex:
+            for (ref, inp), rp in zip(want, ex.map(lambda a: native_replay(a[0], a[1], cached=False), want)):
+                _REPLAYS[_rkey(ref, inp)] = rp
+    rev = []
+    for ob, r in zip(obs, results):
+        if r is None or getattr(ob, "kind", "sym") == "rt" or ob.expect == "refuted" or r.get("verdict") != "refuted":
+            continue
+        kf = match_known(known, prop, r)
+        if kf is not None and kf.get("region") and _region_holds(kf["region"], r["inputs"]):
+            rev.append((ob, kf["region"]))
+    if len(rev) > 1:
+        _REV = rev
+        ctx = multiprocessing.get_context("fork")
+        with ctx.Pool(min(jobs or 16, len(rev))) as pool:
+            for k, r2 in pool.imap_unordered(_rev_work, range(len(rev))):
+                _REVERIFIED[(rev[k][0].id, rev[k][1])] = r2
+
+
+def native_replay(ref, inputs, timeout=300, cached=True):
     "run the obligation body natively (fresh interpreter, no shims) on concrete inputs"
+    if cached and _rkey(ref, inputs) in _REPLAYS:
+        return _REPLAYS[_rkey(ref, inputs)]
     payload = json.dumps({"ref": ref, "inputs": inputs})
     env = dict(os.environ)
     env["PYTHONPATH"] = ROOT + os.pathsep + REPO + os.pathsep + env.get("PYTHONPATH", "")
@@ -131,11 +183,13 @@ def _region_holds(expr, inputs):
         return False
 
 
-def reverify_outside(ob, region):
+def reverify_outside(ob, region, cached=True):
     """verify ob again under the extra precondition that the inputs lie outside `region`
     (a Python expression over v['<input name>']); the assumption is made as soon as every
     input the region mentions has been declared, i.e. before the real function runs."""
     from . import logic
+    if cached and (ob.id, region) in _REVERIFIED:
+        return _REVERIFIED[(ob.id, region)]
     names = set(re.findall(r"v\['([^']+)'\]", region))
     inner = ob.body
 
@@ -180,6 +234,7 @@ def check_property(prop, tier, seed, modules, jobs=None, only=None, verbose=Fals
         return EXIT_CRASH, None
     known = load_known()
     results = run_pool(obs, seed, jobs)
+    _prefetch(prop, obs, results, known, jobs)
     lines = []
     violations = []
     undecided = []
